@@ -101,8 +101,78 @@ def sampled_sizes(ctx, rule):
           ctx.ob(rule, fi, c, False, why, construct=cons, unknown=why)
 
 
+def steps_by_decoding(ctx, rule):
+  """Location-independent: "labels_to_num_steps equals the steps of the sequence so generated".  Every definition of
+  labels_to_num_steps in the encoder modules must turn each label into its event (class_index_to_event / decode_event, directly
+  or by delegating to another labels_to_num_steps) and count the steps of the events.  Arithmetic on the label numbers themselves
+  assumes a block layout; a one-sided comparison of the label with the start of the time-shift block also counts every label of
+  the blocks that follow (velocity changes) as time."""
+  n = 0
+  for mn in ('encoder_decoder', 'performance_encoder_decoder', 'melody_encoder_decoder', 'pianoroll_encoder_decoder', 'chords_encoder_decoder'):
+    try:
+      mi = ctx.P.module(mn)
+    except Exception:      # pylint: disable=broad-except
+      continue
+    for q, fi in sorted(mi.all_functions.items()):
+      if not q.endswith('.labels_to_num_steps') or fi.is_abstract() if callable(getattr(fi, 'is_abstract', None)) else not q.endswith('.labels_to_num_steps'):
+        continue
+      fn = fi.node
+      body = [st for st in fn.body if not (isinstance(st, ast.Expr) and isinstance(st.value, ast.Constant))]
+      if all(isinstance(st, (ast.Pass, ast.Raise)) for st in body):
+        continue
+      n += 1
+      cons = '%s counts the steps of the events its labels stand for' % q
+      if len(body) == 1 and isinstance(body[0], ast.Return) and norm_text(body[0].value) == 'len(%s)' % fi.params()[-1]:
+        ctx.ob(rule, fi, body[0], True, 'the documented default: one step per event', construct=cons)
+        continue
+      decodes = [c for c in U.calls_in(fn) if isinstance(c.func, ast.Attribute) and c.func.attr in ('class_index_to_event', 'decode_event', 'labels_to_num_steps')]
+      if decodes:
+        ctx.ob(rule, fi, decodes[0], True, 'each label is decoded (%s)' % decodes[0].func.attr, construct=cons)
+        continue
+      lbl = set()
+      for lp in ast.walk(fn):
+        if isinstance(lp, ast.For) and isinstance(lp.target, ast.Name):
+          lbl.add(lp.target.id)
+      onesided = [c for c in ast.walk(fn) if isinstance(c, ast.Compare) and len(c.ops) == 1 and isinstance(c.ops[0], (ast.Lt, ast.LtE, ast.Gt, ast.GtE)) and
+                  any(isinstance(x, ast.Name) and x.id in lbl for x in (c.left, c.comparators[0]))]
+      if onesided:
+        ctx.ob(rule, fi, onesided[0], False, '%s does not decode its labels; it counts a label as time when %s, with no upper end of the time-shift block: with velocity bins the labels of '
+               'the velocity block lie above it and are counted as (large) time shifts although their events advance time by 0' % (q, norm_text(onesided[0])), construct=cons, definite=True)
+      else:
+        why = 'cannot classify: %s neither decodes its labels nor delegates' % q
+        ctx.ob(rule, fi, fn, False, why, construct=cons, unknown=why)
+  if n == 0:
+    why = 'cannot classify: no labels_to_num_steps implementation found'
+    ctx.ob(rule, ctx.P.module('encoder_decoder'), 'labels_to_num_steps', False, why, construct='labels_to_num_steps implementations', unknown=why)
+
+
+def note_block_size(ctx, rule):
+  """Location-independent: max_pitch is inclusive for NotePerformance events (the default is MAX_MIDI_PITCH = 127), and the NOTE_ON
+  sub-label is pitch - min_pitch, so the NOTE_ON block holds max_pitch - min_pitch + 1 classes.  The third entry of the class-size
+  list is compared with that in normal form."""
+  ci = ctx.cls('performance_encoder_decoder:NotePerformanceEventSequenceEncoderDecoder')
+  init = ci.methods['__init__']
+  cons = 'the NOTE_ON block of NotePerformance labels has max_pitch - min_pitch + 1 classes'
+  lst = [st for st in U.walk_stmts(init.node) if isinstance(st, ast.Assign) and norm_text(st.targets[0]) == 'self._num_classes' and isinstance(st.value, (ast.List, ast.Tuple))]
+  if len(lst) != 1 or len(lst[0].value.elts) != 6:
+    why = 'cannot classify: the six-entry class-size list was not found'
+    ctx.ob(rule, init, init.node, False, why, construct=cons, unknown=why)
+    return
+  e = U.expand_locals(init.node, lst[0].value.elts[2], at=lst[0])
+  try:
+    ok = nf.rat(e).equals(nf.rat(U.E('max_pitch - min_pitch + 1')))
+    ctx.ob(rule, init, lst[0], ok, 'NOTE_ON block size max_pitch - min_pitch + 1' if ok else
+           'the NOTE_ON block has %s classes; pitches run from min_pitch to max_pitch inclusive, so an event at max_pitch gets the sub-label max_pitch - min_pitch, which is out of range' %
+           norm_text(e), construct=cons, definite=True)
+  except nf.NFError:
+    why = 'cannot classify: NOTE_ON block size %s' % norm_text(e)
+    ctx.ob(rule, init, lst[0], False, why, construct=cons, unknown=why)
+
+
 def run(ctx):
   sampled_sizes(ctx, 'GEN/sampled-size')
+  steps_by_decoding(ctx, 'GEN/steps-by-decoding')
+  note_block_size(ctx, 'NOTEPERF/pitch-block-size')
   base = ctx.cls('encoder_decoder:EventSequenceEncoderDecoder')
   subs = iface.check_interface(ctx, base, 'IFACE/encoder-decoder')
   ctx.require(len(subs) >= 8, 'only %d concrete EventSequenceEncoderDecoder subclasses found' % len(subs))
